@@ -33,7 +33,7 @@ PROBES = ['replacement-happened', 'queued', 'refused-do-not-queue', 'already-own
           'release-promotes-waiter', 'waiting-peer-releases', 'owner-disconnects-with-waiter',
           'waiting-peer-disconnects', 'release-not-owner', 'release-nonexistent',
           'requests-concurrently-in-flight', 'real-client-request', 'queue-of-three',
-          'replaced-owner-fate-observed', 'reset-disconnect', 'ten-or-more-peers',
+          'replaced-owner-fate-observed', 'reset-disconnect', 'ten-or-more-peers', 'peer-without-hello', 'kicked-by-the-bus',
           'request-without-reply', 'name-of-255-characters']
 COMPONENTS = {
     'real': ['txdbus.bus.Bus (dbus_RequestName, dbus_ReleaseName, dbus_GetNameOwner, '
@@ -115,8 +115,14 @@ def scenario(ctx):
     peers = []
 
     def connect(kind=None):
-        kind = kind or ds.pickw([('ref', 3), ('real', 2)])
-        rec = rig.add_peer(unix=ds.flag(0.3)) if kind == 'ref' else rig.add_client()
+        kind = kind or ds.pickw([('ref', 3), ('real', 2), ('ref-nohello', 0.6)])
+        if kind == 'ref-nohello':
+            # a connection that never says Hello: the bus serves its calls to the bus all the same
+            rec = rig.add_peer(unix=ds.flag(0.3), hello=False)
+            rec['nohello'] = True
+            sim.probe('peer-without-hello')
+        else:
+            rec = rig.add_peer(unix=ds.flag(0.3)) if kind == 'ref' else rig.add_client()
         rec['idx'] = len(peers)
         rec['alive'] = True
         rec['frames'] = 0          # how many of rec['sent'] have been processed by the model
@@ -217,8 +223,21 @@ def scenario(ctx):
 
     def op_disconnect(p):
         how = ds.pick(['close', 'reset'])
+        if p.get('nohello') and ds.flag(0.6):
+            how = 'kicked'
         sim.log('op', 'disconnect', p['idx'], how)
         p['alive'] = False
+        if how == 'kicked':
+            # a call to another peer before Hello: the bus drops the connection
+            sim.probe('kicked-by-the-bus')
+            sim.fault('close')
+            other = [q for q in peers if q is not p and q['alive']]
+            dest = uniq[other[ds.choose(len(other))]['idx']] if other else ':1.999'
+            p['proto'].send(rc.Msg(rc.METHOD_CALL, p['proto'].next_serial(),
+                                   {rc.F_PATH: '/x', rc.F_INTERFACE: 'org.sim.X', rc.F_MEMBER: 'Poke',
+                                    rc.F_DESTINATION: dest}))
+            note_sent(p)
+            return
         if how == 'reset':
             sim.probe('reset-disconnect')
             sim.fault('reset')
